@@ -178,6 +178,9 @@ func IntRange(name string, lo, hi int) int {
 	return v
 }
 
+// Pick is IntRange with a case split per value under the solver.
+func Pick(name string, lo, hi int) int { return IntRange(name, lo, hi) }
+
 func bytesVal(name string, n int) []byte {
 	d, _ := next(name)
 	x, _ := hex.DecodeString(d.Hex)
